@@ -22,13 +22,21 @@ def check(F, rep):
     rep.clause("every non-error exit of the batch loop commits the open transaction after the tables were dropped; serialize/deserialize agree on the 8-byte prefix with a legacy fallback")
     rep.undecided("crash durability (redb's contract); the eviction cut-off arithmetic and timing as values")
 
-    hm = get_fn(F, rep, S + "Actor::handle_message")
+    from ..inline import inlined
+    hm0 = get_fn(F, rep, S + "Actor::handle_message")
+    hm = inlined(F, hm0, keep={S + "get_packet", S + "serialize", S + "deserialize"})      # table operations may be wrapped in small private helpers
     # ---- who mutates
     muts = call_sites(F, regex=TBL_MUT, crates=["iroh_dns_server"])
-    rep.floor("who_writes", "redb table mutations in iroh-dns-server", len(muts), 6)
+    rep.floor("who_writes", "redb table mutations in iroh-dns-server", len(muts), 4)
     for f, b, t, kind in muts:
         rep.fn(f)
-        rep.ob("who_writes", source_fn(F, f) == S + "Actor::handle_message", site(f, b), "%s on a table in %s" % (callee_names(t)[0].rsplit("::", 1)[-1], source_fn(F, f)), skey(F, f, "table-mutator"))
+        src_ = source_fn(F, f)
+        okw = src_ == S + "Actor::handle_message"
+        if not okw and f.vis != "pub" and f.file == hm0.file:
+            # a private helper is fine if handle_message is its only caller
+            callers = {source_fn(F, g) for g, b2, t2, k2 in call_sites(F, f.npath, crates=["iroh_dns_server"])}
+            okw = bool(callers) and callers <= {S + "Actor::handle_message"}
+        rep.ob("who_writes", okw, site(f, b), "%s on a table in %s" % (callee_names(t)[0].rsplit("::", 1)[-1], src_), skey(F, f, "table-mutator"))
     cs = call_sites(F, S + "Actor::handle_message", crates=["iroh_dns_server"])
     for f, b, t, kind in cs:
         rep.ob("who_calls", source_fn(F, f) == S + "Actor::run0", site(f, b), "handle_message called from %s" % source_fn(F, f), skey(F, f, "hm-caller"))
